@@ -88,6 +88,47 @@ UD = SObj(
         SFld("d", STR, undefined=True, has_default=True, default="x"),
     ),
 )
+# PEP 593 metadata on the whole annotation (Annotated around Optional / Union-with-UndefinedType / plain types),
+# for every omission rule, on fields and on serialized-method return types
+ANW = SObj(
+    "dataclass",
+    "ANW",
+    (
+        SFld("ur", INT, undefined=True, outer=cons(min=0)),
+        SFld("n", Ann(Opt(STR), cons(max_len=5))),
+        SFld("u", INT, undefined=True, has_default=True, default_undefined=True, outer=cons(min=0)),
+        SFld("un", Opt(INT), undefined=True, has_default=True, default_undefined=True, outer=cons(max=100)),
+        SFld("nd", Ann(Opt(INT), cons(min=0)), has_default=True, default=None),
+        SFld("nu", Ann(Opt(STR), cons(max_len=5)), has_default=True, default=None, none_as_undefined=True),
+        SFld("d", Ann(INT, cons(min=0)), has_default=True, default=3),
+        SFld("sd", Ann(Opt(INT), cons(max=100)), has_default=True, default=None, skip_ser_default=True),
+        SFld("sd1", INT, has_default=True, default=1, skip_ser_default=True, outer=cons(max=100)),
+        SFld("sf", Ann(Coll("list", INT), cons(max_items=5)), factory="list", skip_ser_if_falsy=True),
+        SFld("on", Ann(Ann(Opt(INT), cons(min=0)), cons(max=50)), has_default=True, default=None),
+    ),
+    serialized=(
+        SerM("m_undef", INT, "undef_if_u_undef", undefined=True, outer=cons(min=0)),
+        SerM("m_opt", Ann(Opt(INT), cons(min=0)), "nd_value", kind="property"),
+        SerM("m_both", Opt(INT), "nd_or_undef", undefined=True, outer=cons(min=0)),
+        SerM("m_plain", Ann(INT, cons(min=0)), "d_value"),
+    ),
+)
+S.BODIES["undef_if_u_undef"] = lambda s: s.u
+S.BODIES["nd_value"] = lambda s: s.nd
+S.BODIES["nd_or_undef"] = lambda s: S._undefined() if s.d == 3 else s.nd
+S.BODIES["d_value"] = lambda s: s.d
+# the same wrappers on a with_fields_set class
+ANWF = SObj(
+    "dataclass",
+    "ANWF",
+    (
+        SFld("a", Ann(INT, cons(min=0))),
+        SFld("n", Ann(Opt(STR), cons(max_len=5)), has_default=True, default=None),
+        SFld("u", INT, undefined=True, has_default=True, default_undefined=True, outer=cons(min=0)),
+        SFld("c", Ann(Opt(INT), cons(min=0)), has_default=True, default=0, default_as_set=True),
+    ),
+    fields_set=True,
+)
 # NOT in the pool: the default is Undefined although the annotation does not mention UndefinedType, so an
 # instance holding that default is not a value of its own type (outside the premise 'value v of T' of C04 / C07)
 UD2 = SObj("dataclass", "UD2", (SFld("a", INT, has_default=True, default_undefined=True), SFld("b", STR, has_default=True, default="x")))
@@ -212,7 +253,7 @@ AL = SObj(
 )
 TD3 = TD3_
 
-SER_OBJECTS: List[TD] = [SM1, SM2, SM3, SM4, ANYF, SK, SK2, NU, UD, DF, RO, FS1, FS2, FS3, FS4, FSP, UB, DS, SM1S, CV1, RS, RS2, RSS, CV2, KS, AL, TD3, FSC, FSC2, RSUM, RN, POST, HOLD]
+SER_OBJECTS: List[TD] = [SM1, SM2, SM3, SM4, ANYF, SK, SK2, NU, UD, DF, RO, FS1, FS2, FS3, FS4, FSP, UB, DS, SM1S, CV1, RS, RS2, RSS, CV2, KS, AL, TD3, FSC, FSC2, RSUM, RN, POST, HOLD, ANW, ANWF]
 SER_EXTRA: List[TD] = [
     Coll("list", SM1),
     Opt(SK),
@@ -399,7 +440,7 @@ class Gen:
         return self.values(td, 9)[0]
 
     def field_values(self, td: Obj, f: Fld, depth: int) -> List[Any]:
-        t = Ann(f.t, f.cons) if f.cons else f.t
+        t = S.field_type(f)
         base = list(self.values(t, depth + 1))
         if f.pattern is not None:
             # a pattern-properties field holds the properties whose name matches the pattern
